@@ -280,7 +280,7 @@ PROPS = {
             "one handle per entry (Entry::into_ptr / from_ptr are not used to duplicate handles)",
             "address re-use by the allocator is an adversarial choice of the model only where a pointer is compared without being dereferenced (push's `tail == prev`)",
         ],
-        rule="det mode: consumer t0 (4-9 pop/pop_if/peek/is_empty/remove/drop/is_link/push operations, in 40% of the scenarios followed by the drop of the queue and 1-4 operations on surviving handles) against 1-3 producers x 1-3 pushes; race=1 scenarios (20%) also inspect/drop handles on the producer threads while the consumer runs (the Park::remove_timeout_handle pattern); seeded random schedules with stickiness; non-trivial = a producer's swap is followed by a consumer pop (tail store) or unlink (next store by t0); distinct = SHA-1 of the canonical trace",
+        rule="det mode: consumer t0 (4-9 pop/pop_if/peek/is_empty/remove/drop/is_link/push operations, plus `is_empty(); peek()` pairs and the schedule_timer pattern `while pop_if(due) {}; peek(); if None: is_empty(); if false: peek()` - in 25% of the scenarios (tt=1) these dominate the consumer's program; implementation-side visibility oracles: is_empty() = false / an earlier peek() = Some with nothing taken out since => peek() / pop() is Some, a push that returned before the call and is unconsumed => peek() is Some, peek() shows the oldest unconsumed entry in swap order; in 40% of the scenarios followed by the drop of the queue and 1-4 operations on surviving handles) against 1-3 producers x 1-3 pushes; race=1 scenarios (20%) also inspect/drop handles on the producer threads while the consumer runs (the Park::remove_timeout_handle pattern); seeded random schedules with stickiness; non-trivial = a producer's swap is followed by a consumer pop (tail store) or unlink (next store by t0); distinct = SHA-1 of the canonical trace",
     ),
     "C02": dict(
         lean_props=["MayVerif.Props.C02"],
